@@ -16,20 +16,20 @@ import (
 
 func init() {
 	register(&Check{ID: "C11", Run: runC11, Expl: oblig.Explanation{
-		Text: "Static stream-alignment check of the hand-written Conn codec. (R1) Every place where a broker error code is converted into a kafka.Error while a response is being read (closures handed to (*Conn).do as the read phase, the size-threading reader functions, ReadBatchWith) is examined: if the code's own success continuation still consumes bytes of the frame after that point (interprocedurally: after the closure returns into readArrayWith's caller, after a header function returns into ReadBatchWith), then a drain of the remainder (discardN(r, sz, sz) or readResponse) must lie on the error path before control returns to do()/the Batch. (R2) do, doRequest, waitResponse and Batch.close close the net.Conn on every non-Kafka error. (R3) all other operations convert ErrorCode only after do() returned. (R4) no error returned by the byte-consuming layer (read*/discard* helpers, messageSetReader, bufio Discard/Peek on rbuf) is dropped; a failed discard in Batch.close closes the connection. Not decided: that every following operation behaves as on a fresh connection (behavioural), timing of deadlines.",
-		Rule: "one obligation per error-raising point (R1), per core function (R2), per operation (R3), per reader-layer call site (R4); non-trivial = a path search was performed",
-		Trusted: []string{"go/ssa", "reader layer = functions with a *bufio.Reader parameter, messageSetReader methods, bufio.Reader methods", "requests name one topic and one partition, so further elements of the same array are not searched"},
+		Text:        "Static stream-alignment check of the hand-written Conn codec. (R1) Every place where a broker error code is converted into a kafka.Error while a response is being read (closures handed to (*Conn).do as the read phase, the size-threading reader functions, ReadBatchWith) is examined: if the code's own success continuation still consumes bytes of the frame after that point (interprocedurally: after the closure returns into readArrayWith's caller, after a header function returns into ReadBatchWith), then a drain of the remainder (discardN(r, sz, sz) or readResponse) must lie on the error path before control returns to do()/the Batch. (R2) do, doRequest, waitResponse and Batch.close close the net.Conn on every non-Kafka error. (R3) all other operations convert ErrorCode only after do() returned. (R4) no error returned by the byte-consuming layer (read*/discard* helpers, messageSetReader, bufio Discard/Peek on rbuf) is dropped; a failed discard in Batch.close closes the connection. Not decided: that every following operation behaves as on a fresh connection (behavioural), timing of deadlines.",
+		Rule:        "one obligation per error-raising point (R1), per core function (R2), per operation (R3), per reader-layer call site (R4); non-trivial = a path search was performed",
+		Trusted:     []string{"go/ssa", "reader layer = functions with a *bufio.Reader parameter, messageSetReader methods, bufio.Reader methods", "requests name one topic and one partition, so further elements of the same array are not searched"},
 		Assumptions: []string{"a response frame is fully consumed when the size-threading readers reach size 0 (expectZeroSize)"},
 	}})
 }
 
 type c11ctx struct {
-	p       *load.Program
-	r       *oblig.Report
-	rl      map[*ssa.Function]bool // reader layer
-	errType types.Type
-	callers map[*ssa.Function][]ssa.CallInstruction // static call sites
-	closureSites map[*ssa.Function][]*ssa.Call         // calls to which the closure is passed as an argument
+	p            *load.Program
+	r            *oblig.Report
+	rl           map[*ssa.Function]bool // reader layer
+	errType      types.Type
+	callers      map[*ssa.Function][]ssa.CallInstruction // static call sites
+	closureSites map[*ssa.Function][]*ssa.Call           // calls to which the closure is passed as an argument
 }
 
 func isBufioReaderPtr(t types.Type) bool {
@@ -95,13 +95,13 @@ func (c *c11ctx) consumes(ins ssa.Instruction) bool {
 			return true
 		}
 		if sc.Signature.Recv() != nil && isBufioReaderPtr(sc.Signature.Recv().Type()) {
-			switch sc.Name() {
+			switch an.RefFuncName(sc) {
 			case "Discard", "Peek", "Read", "ReadByte", "ReadString", "ReadBytes":
 				return true
 			}
 		}
 		// methods readFrom(r *bufio.Reader, …) are in rl through their parameter
-		if sc.Name() == "readResponse" {
+		if an.RefFuncName(sc) == "readResponse" {
 			return true
 		}
 	}
@@ -124,10 +124,36 @@ func (c *c11ctx) isDrain(ins ssa.Instruction) bool {
 	if sc == nil {
 		return false
 	}
-	if sc.Name() == "discardN" && len(ci.Call.Args) == 3 && ci.Call.Args[1] == ci.Call.Args[2] {
+	if an.RefFuncName(sc) == "discardN" && len(ci.Call.Args) == 3 && ci.Call.Args[1] == ci.Call.Args[2] {
 		return true
 	}
-	return false
+	// a helper of the module that drains (the drain may have been extracted into its own function)
+	return c.drainsInside(sc, 2)
+}
+
+func (c *c11ctx) drainsInside(fn *ssa.Function, depth int) bool {
+	if depth <= 0 || fn == nil || fn.Blocks == nil || !load.InModule(fn) {
+		return false
+	}
+	found := false
+	an.EachInstr(fn, func(ins ssa.Instruction) {
+		ci, ok := ins.(*ssa.Call)
+		if !ok || found {
+			return
+		}
+		sc := ci.Call.StaticCallee()
+		if sc == nil {
+			return
+		}
+		if an.RefFuncName(sc) == "discardN" && len(ci.Call.Args) == 3 && ci.Call.Args[1] == ci.Call.Args[2] {
+			found = true
+			return
+		}
+		if sc != fn && c.drainsInside(sc, depth-1) {
+			found = true
+		}
+	})
+	return found
 }
 
 // forwardFind: existential search from the start of block b (or after instruction index idx in b) for an instruction
@@ -176,7 +202,7 @@ func (c *c11ctx) inReaderContext(fn *ssa.Function) bool {
 		// closures handed as the read phase to do/readOperation/writeOperation
 		for _, site := range c.closureSites[f] {
 			if sc := site.Call.StaticCallee(); sc != nil {
-				switch sc.Name() {
+				switch an.RefFuncName(sc) {
 				case "do", "readOperation", "writeOperation":
 					return true
 				}
@@ -321,14 +347,14 @@ func (c *c11ctx) ruleR2() {
 				if iff == nil {
 					continue
 				}
-				cond := iff.Cond
+				cond := an.CondOf(iff)
 				neg := false
 				if u, isU := cond.(*ssa.UnOp); isU && u.Op == token.NOT {
-					cond, neg = u.X, true
+					cond, neg = an.ThroughNew(u.X), true
 				}
 				// `!errors.As(..) && !errors.Is(..)` lowers to nested ifs: accept the errors.As test anywhere above
 				if as, isCall := cond.(*ssa.Call); isCall {
-					if f := as.Call.StaticCallee(); f != nil && f.Pkg != nil && f.Pkg.Pkg.Path() == "errors" && f.Name() == "As" {
+					if f := as.Call.StaticCallee(); f != nil && f.Pkg != nil && f.Pkg.Pkg.Path() == "errors" && an.RefFuncName(f) == "As" {
 						onTrue := d.Succs[0] == child || d.Succs[0].Dominates(child)
 						if neg {
 							onTrue = !onTrue
@@ -372,7 +398,7 @@ func isConnClose(c *ssa.CallCommon) bool {
 	if c.IsInvoke() {
 		return c.Method.Name() == "Close" && an.NamedIs(c.Value.Type(), "net", "Conn")
 	}
-	if f := c.StaticCallee(); f != nil && f.Name() == "Close" && f.Signature.Recv() != nil && an.NamedIs(f.Signature.Recv().Type(), load.ModPath, "Conn") {
+	if f := c.StaticCallee(); f != nil && an.RefFuncName(f) == "Close" && f.Signature.Recv() != nil && an.NamedIs(f.Signature.Recv().Type(), load.ModPath, "Conn") {
 		return true
 	}
 	return false
@@ -395,7 +421,7 @@ func (c *c11ctx) ruleR3() {
 		var op *ssa.Call
 		an.EachInstr(fn, func(ins ssa.Instruction) {
 			if call, ok := ins.(*ssa.Call); ok {
-				if sc := call.Call.StaticCallee(); sc != nil && (sc.Name() == "readOperation" || sc.Name() == "writeOperation" || sc.Name() == "do") {
+				if sc := call.Call.StaticCallee(); sc != nil && (an.RefFuncName(sc) == "readOperation" || an.RefFuncName(sc) == "writeOperation" || an.RefFuncName(sc) == "do") {
 					op = call
 				}
 			}
@@ -521,10 +547,10 @@ func cannotFailIdiom(call *ssa.Call) string {
 		return ""
 	}
 	arg := call.Call.Args[1]
-	switch sc.Name() {
+	switch an.RefFuncName(sc) {
 	case "Peek":
 		if c2, ok := arg.(*ssa.Call); ok {
-			if f := c2.Call.StaticCallee(); f != nil && f.Name() == "Buffered" && c2.Call.Args[0] == call.Call.Args[0] {
+			if f := c2.Call.StaticCallee(); f != nil && an.RefFuncName(f) == "Buffered" && c2.Call.Args[0] == call.Call.Args[0] {
 				return "Peek(r.Buffered()) only returns bytes that are already buffered"
 			}
 		}
@@ -601,7 +627,7 @@ func (c *c11ctx) ruleR5() {
 	r.Check(once, rule, "kafka.(*Conn).waitResponse calls leave() at most once", p.Pos(wait.Pos()), "leave() outside the retry loop", "leave() can run more than once per call")
 	// doRequest: enter() first; leave() only on the error path
 	first := false
-	for _, ins := range doReq.Blocks[0].Instrs {
+	for _, ins := range an.Blocks(doReq)[0].Instrs {
 		if ci, ok := ins.(ssa.CallInstruction); ok {
 			first = an.StaticCalleeIs(ci.Common(), enter)
 			break
@@ -633,7 +659,7 @@ func (c *c11ctx) ruleR5() {
 		_ = st
 		_ = isStore
 	})
-	for _, b := range wait.Blocks {
+	for _, b := range an.Blocks(wait) {
 		_, ci := an.IfCond(b)
 		if ci == nil || ci.Op != token.EQL {
 			continue
@@ -679,7 +705,7 @@ func (c *c11ctx) batchCloseDrains(rule string) {
 			return true
 		}
 		sc := call.Call.StaticCallee()
-		return sc != nil && sc.Name() == "discard" && sc.Signature.Recv() != nil && an.NamedIs(sc.Signature.Recv().Type(), load.ModPath, "messageSetReader")
+		return sc != nil && an.RefFuncName(sc) == "discard" && sc.Signature.Recv() != nil && an.NamedIs(sc.Signature.Recv().Type(), load.ModPath, "messageSetReader")
 	}
 	ok, bad := an.MustPass(bc, an.EntryPoint(bc), pass, edge)
 	where := ""
